@@ -299,7 +299,9 @@ type Listener struct {
 	closed chan struct{}
 	Closes int
 	mu     sync.Mutex
-	addr   *net.TCPAddr
+	// OnAccept is called when a queued raw connection is handed to the code under test
+	OnAccept func(c manet.Conn)
+	addr     *net.TCPAddr
 	maddr  ma.Multiaddr
 }
 
@@ -316,6 +318,9 @@ func (l *Listener) Accept() (manet.Conn, error) {
 	}
 	select {
 	case c := <-l.Ch:
+		if l.OnAccept != nil {
+			l.OnAccept(c)
+		}
 		return c, nil
 	case <-l.closed:
 		return nil, net.ErrClosed
